@@ -209,7 +209,7 @@ func solveOnce(c *SolveCase) (verdict int, model []bool, cert [][]int, inv strin
 		go func() {
 			defer func() {
 				if e := recover(); e != nil {
-					pan = e
+					pan = panicInfo(e)
 					close(s.CertChan)
 					done <- solver.Indet
 				}
